@@ -16,7 +16,9 @@ The complete list of what extraction drops/changes (reported with counts in ever
       before/after printed in evidence)
   N2  `for pat in expr`  ->  `for pat in NAME: expr`  (Verus syntax naming the ghost iterator; `loop k var=NAME`)
   N4  `for PAT in EXPR { B }` -> `let mut IT = IntoIterator::into_iter(EXPR); loop { let PAT = match Iterator::next(&mut IT) { Some(v) => v, None => break }; B }`
-      (the Rust reference's definition of `for`, used where vstd has no for-loop model of the iterator type; `loop k desugar=IT`)
+      (the Rust reference's definition of `for`, used where vstd has no for-loop model of the iterator type; `loop k desugar=IT`;
+      with `into=F` the conversion call is the template's wrapper F whose external body is `x.into_iter()` - needed because Verus
+      loses the concrete type of a trait-dispatched `into_iter` result)
   N3  `fn f(mut self, ..)` -> `fn f(self, ..) { let mut this = self; ..}` with `self` renamed to `this` in the body
       (Verus does not support a `mut self` receiver; renaming a by-value binding is meaning-preserving; `mutself=this`)
   R1  `-> T` becomes `-> (r: T)` where the contract names the result (`ret=r`)
@@ -396,9 +398,11 @@ def build_fn(gen, d):
                 pat = body[p + 3:p + mi.start()].strip()
                 expr = body[p + mi.end():o].strip()
                 cuts.append((p, o + 1))
-                inserts.append((p, 'let mut %s = IntoIterator::into_iter(%s); // N4\n        loop' % (itn, expr), 'raw', None))
-                inserts.append((p, None, 'invariant', b.lines))
-                inserts.append((p, '{\n            let %s = match Iterator::next(&mut %s) { Some(__v) => __v, None => break }; // N4' % (pat, itn), 'raw', None))
+                conv = lopts['into'][0] if 'into' in lopts else 'IntoIterator::into_iter'
+                inserts.append((p, 'let mut %s = %s(%s); // N4\n' % (itn, conv, expr), 'raw', None, 1))
+                inserts.append((p, '        loop', 'raw', None, 3))
+                inserts.append((p, None, 'invariant', b.lines, 4))
+                inserts.append((p, '{\n            let %s = match Iterator::next(&mut %s) { Some(__v) => __v, None => break }; // N4' % (pat, itn), 'raw', None, 5))
                 gen.drops['N4_for_desugared'] += 1
                 continue
             inserts.append((o, None, 'invariant', b.lines))
@@ -419,6 +423,10 @@ def build_fn(gen, d):
                         dm -= 1
                     elif ch == ';' and dm == 1:
                         pos = ci + 1
+            elif re.match(r'loop(\d+)-before$', anchor):
+                pos = loops[int(re.match(r'loop(\d+)', anchor).group(1))][1]
+                inserts.append((pos, None, 'proof', b.lines, 2))
+                continue
             elif re.match(r'loop(\d+)-start$', anchor):
                 pos = loops[int(re.match(r'loop(\d+)', anchor).group(1))][2] + 1
             elif re.match(r'loop(\d+)-end$', anchor):
@@ -478,9 +486,11 @@ def build_fn(gen, d):
         for (a, b2) in cuts:
             events.append((a, 0, 'cut', b2))
         order = 0
-        for (pos, text, kind, lines) in inserts:
+        for ins in inserts:
+            (pos, text, kind, lines) = ins[:4]
+            phase = ins[4] if len(ins) > 4 else 6
             order += 1
-            events.append((pos, order, kind, (text, lines)))
+            events.append((pos, phase * 100000 + order, kind, (text, lines)))
         # build pieces
         pieces = []   # ('src', text) / ('ins', kind, lines or text)
         cur = 0
